@@ -423,7 +423,7 @@ impl Property for Scripts {
     }
     fn budget(&self, tier: Tier) -> Budget {
         Budget {
-            cases: tier.pick(12_000, 600_000),
+            cases: tier.pick(40_000, 600_000),
             tape_len: 4500,
         }
     }
